@@ -87,3 +87,11 @@ Definition check_field_merged (opt : record_option) (normed : bool) (docs : list
    (a non-text JSON leaf) on either side *)
 Definition f71_class (opt : record_option) (docs : list docin) (prev_key new_key : bytes) : bool :=
   has_freq opt && (negb (term_is_text prev_key docs) || negb (term_is_text new_key docs)).
+
+From TV Require Import Postings.Grouping.
+(* spec: one text field of a segment whose documents are given as they were handed to add_document: the (field,
+   value) pairs of every document in insertion order, interleaved across fields (Grouping.field_docin: the field's
+   values in document order) *)
+Definition check_field_raw (opt : record_option) (f : N) (docs : list rawdoc)
+           (observed : list (bytes * list posting)) (doc_freqs : list N) (total : N) (norms : option (list N)) : bool :=
+  check_field opt (map (field_docin f) docs) observed doc_freqs total norms.
